@@ -38,7 +38,8 @@ RULE = ("random scenes: 2-4 rectangles in own grid cells with 1-5 pins each (pro
         "inside offsets, masks 0..15, exclusive default/forced, costs), 0-2 junctions, 1-6 connectors (pin/junction/"
         "free ends, 0-3 checkpoints), orthogonal/polyline/mixed routers, buffer 0/2/4/8; history of 1-4 (quick) or "
         "2-7 (thorough) transactions of moves, resizes, junction moves, connector add/delete, pin/shape deletion, "
-        "exclusivity toggles. A case is non-trivial if at least one pin-attached end was checked after a move/resize.")
+        "exclusivity toggles, re-targeting of a connector end (setSourceEndpoint/setDestEndpoint to another pin class, "
+        "a junction or a free point) in the same transaction as moves of the old and/or new object. A case is non-trivial if at least one pin-attached end was checked after a move/resize.")
 TRUSTED_BASE = ["Lean 4.33 kernel", "axioms: propext, Classical.choice, Quot.sound", "Lean compiler for the driver",
                 "harness/c11.cpp generator + hex-float import", "IEEE exactness of +,-,* on small dyadic data"]
 ASSUMPTIONS = ["inputs are dyadic rationals k/16 with |k| < 2^20 so that position() is computed exactly",
@@ -49,7 +50,8 @@ ROOT = Path(__file__).resolve().parent.parent.parent
 # suspected-genuine-defect classes: enabled (generator mode / strict driver class) only when the
 # lead has recorded the class in known_findings.json, so that hits print KNOWN-FINDING
 GEN_CLASSES = {"C11-border0": "border0", "C11-cp-junction": "cpjunction", "C11-del-attached": "delattached"}
-DRV_CLASSES = {"C11-lib-assert": "lib-assert", "C11-cp-disp": "cp-disp", "C11-hyper-disp": "hyper-disp", "C11-nudge-dir": "nudge-dir", "C11-no-path": "no-path"}
+DRV_CLASSES = {"C11-lib-assert": "lib-assert", "C11-cp-disp": "cp-disp", "C11-hyper-disp": "hyper-disp", "C11-nudge-dir": "nudge-dir", "C11-no-path": "no-path",
+               "C11-retarget-jmove": "retarget-jmove"}
 
 
 def _known_ids():
